@@ -287,8 +287,8 @@ def run(ctx):
     ctx.proof_phase(MODULE_UNROLL, THEOREMS_UNROLL, refutations=REFUTATIONS_UNROLL)
     drv = ctx.driver("Drivers.Spine")
     rng = ctx.sub_rng("programs")
-    nprog = ctx.budget(150, 3000)
-    ngraph = ctx.budget(150, 3000)
+    nprog = ctx.budget(150, 1200)
+    ngraph = ctx.budget(150, 1500)
     cases = []
     for i in range(nprog):
         P = spine.gen_program(rng)
